@@ -6,6 +6,7 @@ import QV.Drive.C04
 import QV.Drive.C14
 import QV.Drive.C05
 import QV.Drive.C18
+import QV.Drive.C16
 /-! `qvdriver`: one JSON request per input line, one JSON reply per output line. -/
 open Lean
 
@@ -18,7 +19,8 @@ def dispatch (j : Json) : Except String Json := do
     QV.Drive.C04.handle,
     QV.Drive.C14.handle,
     QV.Drive.C05.handle,
-    QV.Drive.C18.handle
+    QV.Drive.C18.handle,
+    QV.Drive.C16.handle
   ]
   for h in handlers do
     if let some r := h op j then return ← r
